@@ -17,8 +17,10 @@ import (
 	"fmt"
 	"hash"
 	"hash/fnv"
+	"io"
 	"math/big"
 	"net"
+	"net/http/httptest"
 	"sort"
 	"strings"
 	"time"
@@ -26,6 +28,7 @@ import (
 	"github.com/jech/galene/conn"
 	"github.com/jech/galene/group"
 	"github.com/jech/galene/rtpconn"
+	"github.com/jech/galene/token"
 	"github.com/jech/galene/webserver"
 
 	"verif/simrt"
@@ -123,6 +126,7 @@ type tsTok struct {
 	Sub     bool     `json:"sub,omitempty"` // includeSubgroups / include-subgroups
 
 	Group string `json:"group,omitempty"` // stateful
+	Via   string `json:"via,omitempty"`   // stateful: "" written to the token file | "update" registered through token.Update while the server runs (as maketoken / the API do)
 
 	Alg     string  `json:"alg,omitempty"`  // JWT header alg
 	HKid    string  `json:"hkid,omitempty"` // JWT header kid
@@ -135,15 +139,16 @@ type tsTok struct {
 
 type tsTry struct {
 	ID     int     `json:"id"`
-	K      string  `json:"k,omitempty"` // "" join | admin | put | mod
+	K      string  `json:"k,omitempty"` // "" join | admin | put | mod | edit (an administrator extends a stateful token through the API: GET, change "expires", PUT If-Match)
 	At     int64   `json:"at"`          // ms after the start of the run
 	Tok    int     `json:"tok,omitempty"`
 	Target string  `json:"target,omitempty"`
 	HasCU  bool    `json:"has_cu,omitempty"` // client-supplied username
 	CU     string  `json:"cu,omitempty"`
-	File   *tsFile `json:"file,omitempty"` // put
-	T      int     `json:"t,omitempty"`    // mod: id of the try whose client is moderated
-	Act    string  `json:"act,omitempty"`  // mod
+	File   *tsFile `json:"file,omitempty"`    // put
+	T      int     `json:"t,omitempty"`       // mod: id of the try whose client is moderated
+	Act    string  `json:"act,omitempty"`     // mod
+	NewExp int64   `json:"new_exp,omitempty"` // edit: new expiry (ms after the start of the run)
 }
 
 type tsPlan struct {
@@ -747,7 +752,16 @@ func tsGenCase(tp *simrt.Tape, p *tsPlan, nextTry *int) {
 			}
 		}
 	}
+	if !jwt && tp.Chance(1, 3) {
+		t.Via = "update"
+	}
 	p.Toks = append(p.Toks, t)
+	if !jwt && t.Group != "" && tp.Chance(1, 4) {
+		// an administrator extends the token some time before it is used
+		e := tsTry{ID: *nextTry, K: "edit", Tok: id, At: F - []int64{4 * 3600000, 3600000, 60000, 11000}[tp.Draw(4)], NewExp: F + []int64{4 * 3600000, 3 * 3600000, 86400000}[tp.Draw(3)]}
+		*nextTry++
+		p.Tries = append(p.Tries, e)
+	}
 	n := 1 + tp.Weighted(3, 3, 2, 1)
 	for i := 0; i < n; i++ {
 		y := tsTry{ID: *nextTry, Tok: id, Target: target}
@@ -1129,7 +1143,7 @@ func (w *tsWorld) putFile(f tsFile) {
 func (w *tsWorld) writeTokens() {
 	var sb strings.Builder
 	for _, t := range w.p.Toks {
-		if t.Kind != "st" {
+		if t.Kind != "st" || t.Via == "update" {
 			continue
 		}
 		m := map[string]any{"token": w.tokString(&t), "group": t.Group, "permissions": append([]string{}, t.Perms...)}
@@ -1717,6 +1731,87 @@ func (w *tsWorld) doMod(y tsTry) {
 	w.history = append(w.history, fmt.Sprintf("%s(client of try #%d %q in %s: %v -> %v) by client of try #%d", y.Act, y.T, t.initUser, t.grp.Name(), before, t.perms, by.try.ID))
 }
 
+// registerTokens adds the "via update" stateful tokens through the token
+// package's public Update, the call maketoken and the API's POST/PUT make
+// while the server is running.
+func (w *tsWorld) registerTokens() {
+	for i := range w.p.Toks {
+		t := &w.p.Toks[i]
+		if t.Kind != "st" || t.Via != "update" {
+			continue
+		}
+		st := &token.Stateful{Token: w.tokString(t), Group: t.Group, IncludeSubgroups: t.Sub, Permissions: append([]string{}, t.Perms...)}
+		if t.HasUser {
+			u := t.User
+			st.Username = &u
+		}
+		if t.HasExp {
+			e := w.base.Add(time.Duration(t.Exp) * time.Millisecond).UTC()
+			st.Expires = &e
+		}
+		if t.HasNbf {
+			n := w.base.Add(time.Duration(t.Nbf) * time.Millisecond).UTC()
+			st.NotBefore = &n
+		}
+		if _, err := token.Update(st, ""); err != nil {
+			w.c.Violation("harness.setup", "token.Update(%+v) failed: %v", *st, err)
+			return
+		}
+		w.c.Count("probe.token_registered_via_update", 1)
+	}
+}
+
+// doEdit: an administrator extends a stateful token through the real API
+// handlers: GET the token, change "expires", PUT it back with If-Match.
+// Nothing but the expiry may change.
+func (w *tsWorld) doEdit(y tsTry) {
+	t := w.toks[y.Tok]
+	if t == nil || t.Kind != "st" || t.Group == "" {
+		return
+	}
+	aaStaticOnce.Do(func() {
+		if err := webserver.VerifSetStaticRoot("/"); err != nil {
+			panic(err)
+		}
+	})
+	h := webserver.VerifAPIHandler()
+	url := "/galene-api/v0/.groups/" + t.Group + "/.tokens/" + w.tokString(t)
+	do := func(method, body string, hdr map[string]string) *httptest.ResponseRecorder {
+		var rd io.Reader
+		if body != "" {
+			rd = strings.NewReader(body)
+		}
+		r := httptest.NewRequest(method, url, rd)
+		r.SetBasicAuth("root", "rootpw")
+		for k, v := range hdr {
+			r.Header.Set(k, v)
+		}
+		rec := httptest.NewRecorder()
+		h.ServeHTTP(rec, r)
+		return rec
+	}
+	g := do("GET", "", nil)
+	if g.Code != 200 {
+		w.c.Count(fmt.Sprintf("ts.edit_get_%d", g.Code), 1)
+		return
+	}
+	var m map[string]any
+	if err := json.Unmarshal(g.Body.Bytes(), &m); err != nil {
+		w.c.Count("ts.edit_badjson", 1)
+		return
+	}
+	m["expires"] = w.base.Add(time.Duration(y.NewExp) * time.Millisecond).UTC().Format(time.RFC3339Nano)
+	b, _ := json.Marshal(m)
+	pr := do("PUT", string(b), map[string]string{"Content-Type": "application/json", "If-Match": g.Header().Get("ETag")})
+	w.c.Count(fmt.Sprintf("ts.edit_put_%d", pr.Code), 1)
+	if pr.Code != 204 {
+		return
+	}
+	t.HasExp, t.Exp = true, y.NewExp
+	w.c.Count("probe.token_extended_through_api", 1)
+	w.history = append(w.history, fmt.Sprintf("token #%d extended through the API (GET, PUT If-Match) at T+%dms: expires T+%dms", t.ID, y.At, y.NewExp))
+}
+
 func runTokenScope(c *Ctx, plan any) {
 	p := plan.(*tsPlan)
 	if len(p.Files) == 0 || len(p.Tries) == 0 {
@@ -1724,10 +1819,14 @@ func runTokenScope(c *Ctx, plan any) {
 	}
 	w := &tsWorld{c: c, p: p, vfs: c.Run.FS(), base: time.Now(), toks: map[int]*tsTok{}, strs: map[int]string{}, stubs: map[int]*tsStub{}}
 	c.Run.AtEnd(group.VerifC10ReleaseGlobalLocks)
-	if p.Host != "" {
-		b, _ := json.Marshal(map[string]any{"canonicalHost": p.Host})
+	{
+		conf := map[string]any{"users": map[string]any{"root": map[string]any{"password": "rootpw", "permissions": "admin"}}}
+		if p.Host != "" {
+			conf["canonicalHost"] = p.Host
+			c.Count("probe.canonical_host", 1)
+		}
+		b, _ := json.Marshal(conf)
 		w.vfs.Put("/sim/data/config.json", b)
-		c.Count("probe.canonical_host", 1)
 	}
 	for _, f := range p.Files {
 		w.putFile(f)
@@ -1740,6 +1839,7 @@ func runTokenScope(c *Ctx, plan any) {
 		}
 	}
 	w.writeTokens()
+	w.registerTokens()
 	slot := 0
 	for i := 0; i < len(p.Tries) && !w.failed; {
 		y := p.Tries[i]
@@ -1761,6 +1861,10 @@ func runTokenScope(c *Ctx, plan any) {
 			continue
 		case "mod":
 			w.doMod(y)
+			i++
+			continue
+		case "edit":
+			w.doEdit(y)
 			i++
 			continue
 		}
